@@ -1,13 +1,13 @@
 ---- MODULE MC_Repr ----
 EXTENDS Repr
-ShAll == {"kw", "pos2", "poskw", "closed", "kwonly"}
-AV == {"0", "3", "neg", "inf", "big", "none"}
-AVq == {"0", "neg", "inf", "none"}
+ShAll == {"kw", "pos2", "poskw", "closed", "kwonly", "kwreq"}
+AV == {"0", "3", "neg", "inf", "ninf", "big", "none"}
+AVq == {"0", "neg", "inf", "ninf", "none"}
 BV == {"4", "7", "9", "none"}
 SV == {"empty", "plain", "escapes", "unicode"}
 SVq == {"empty", "escapes"}
-LV == {"empty", "nested", "onetuple", "withinf"}
-LVq == {"empty", "onetuple", "withinf"}
+LV == {"empty", "nested", "onetuple", "withinf", "withninf"}
+LVq == {"empty", "onetuple", "withinf", "withninf"}
 TV == {"none", "pair", "one"}
 TVq == {"none", "one"}
 SubV == {"none", "inner", "innerchanged"}
